@@ -16,7 +16,10 @@ EXPLANATION = (
     "violation by construction (unsigned LEB128 of 64 is 40, signed is C0 00). R19.2 every size field is uleb(len(X)) directly "
     "followed by bytes(X) of the same buffer (= R07.2). R19.3 names are written as uleb(len(b)) bytes(b) with b the UTF-8 "
     "encoding. R19.4 the shape of both encoder loops: 7 value bits per byte, continuation bit on all but the last byte, "
-    "termination on the remaining value (and, signed, on the sign bit of the last group)."
+    "termination on the remaining value (and, signed, on the sign bit of the last group); no raise/assert whose guard is "
+    "decidable from (value, signed) is taken for a boundary value of the signed or unsigned 32-bit range. R19.2 also: the "
+    "Instruction constructor, folded over the argument shapes its call sites use, stores every immediate it is given. "
+    "R19.5 the writer is a function of its arguments (no import-time state, no one-shot iterators in fields)."
 )
 NOT_DECIDED = "that the encoder's arithmetic is right for every integer of the range (a statement about values; R19.4 checks the loops' shape only)"
 ASSUMPTIONS = ["LEB128 as defined by the WebAssembly 1.0 binary format"]
@@ -123,6 +126,7 @@ def run(model, col, tier):
         streams_ok = i_op is not None and bool(guards) and all(i > i_op and isinstance(s.test, ast.UnaryOp) and isinstance(s.test.op, ast.Not) and unparse(s.test.operand).endswith("args") for i, s in guards)
     col.check(shape_ok and streams_ok, "R19.2", f"{WA}::Instruction.WriteTo", "byte(opcode) then uleb/sleb(arg) for each immediate, to the output stream",
               f"an instruction is written as {oi} (streams {sorted(ti.buffers)}); expected its opcode byte followed by each immediate", WA, insw)
+    check_immediates_kept(model, col, "R19.2")
     # ---------------- R19.3 ------------------------------------------------------
     ws = model.func(WA, "WriteString")
     t = Terms(model, ws)
@@ -176,6 +180,103 @@ def run(model, col, tier):
                   "writes nothing for it, so the size field and the payload disagree", WA, shots[0][2] if shots else ci.node)
     col.floor("R19.5", "writer classes", ncls, 8)
     check_vectors(model, col, "R19.2")
+
+
+def check_immediates_kept(model, col, rule):
+    """Every immediate handed to Instruction(..) is in the sequence WriteTo iterates.  The constructor is folded over the
+    argument shapes its call sites use (a display of immediates; a bare number) with the values 0 and 7: what it stores must
+    list exactly those values."""
+    from ..miniev import CannotEval, ev
+    from ..sem import local_env, resolve
+
+    ic = model.cls(WA, "Instruction")
+    init, wt = ic.own_method("__init__"), ic.own_method("WriteTo")
+    if init is None or wt is None or len(init.args.args) < 3:
+        raise AnchorMissing("Instruction.__init__(self, opcode, args)")
+    oname, pname = init.args.args[1].arg, init.args.args[2].arg
+    loops = [n for n in ast.walk(wt) if isinstance(n, ast.For) and isinstance(n.iter, ast.Attribute) and isinstance(n.iter.value, ast.Name) and n.iter.value.id == "self"]
+    if len(loops) != 1:
+        col.ok(rule, f"{WA}::Instruction keeps its immediates", "not decided: WriteTo does not iterate one field of the instruction")
+        return
+    field = "self." + loops[0].iter.attr
+    sites, seen = [], set()
+    for rel, fi in model.files.items():
+        if not rel.startswith("nsl/"):
+            continue
+        for f in ast.walk(fi.tree):
+            if not isinstance(f, (ast.FunctionDef, ast.AsyncFunctionDef)):
+                continue
+            lenv = None
+            for c in ast.walk(f):
+                if not (isinstance(c, ast.Call) and last_attr(c) == "Instruction" and id(c) not in seen and model.resolve_class_expr(rel, c.func) is ic):
+                    continue
+                seen.add(id(c))
+                a = c.args[1] if len(c.args) > 1 else next((k.value for k in c.keywords if k.arg == pname), None)
+                if isinstance(a, ast.Name):
+                    lenv = lenv if lenv is not None else local_env(f)
+                    a = resolve(a, lenv)
+                if a is None or (isinstance(a, ast.Constant) and a.value is None):
+                    shape = "none"
+                elif isinstance(a, (ast.Tuple, ast.List)):
+                    shape = "seq"
+                elif (isinstance(a, ast.Constant) and isinstance(a.value, (int, float))) or (isinstance(a, ast.Attribute) and a.attr == "Value"):
+                    shape = "bare"
+                else:
+                    shape = "unknown"
+                sites.append((rel, f, c, shape))
+    col.floor(rule, "Instruction constructions", len(sites), 8)
+    col.note("Instruction argument shapes", sorted({s[3] for s in sites}))
+
+    def fold(sample):
+        for evs, status in paths(init.body):
+            env = {oname: 0x41, pname: sample}
+            feasible = True
+            for e in evs:
+                if e.kind == "stmt" and isinstance(e.node, ast.Assign) and len(e.node.targets) == 1:
+                    t = e.node.targets[0]
+                    v = ev(e.node.value, env)
+                    if isinstance(t, ast.Name):
+                        env[t.id] = v
+                    elif isinstance(t, ast.Attribute) and isinstance(t.value, ast.Name) and t.value.id == "self":
+                        env["self." + t.attr] = v
+                    else:
+                        raise CannotEval("target")
+                elif e.kind == "cond":
+                    if bool(ev(e.node, env)) != bool(e.val):
+                        feasible = False
+                        break
+                elif e.kind == "stmt" and isinstance(e.node, ast.Expr) and isinstance(e.node.value, ast.Constant):
+                    continue
+                elif e.kind in ("stmt", "loop", "raise"):
+                    raise CannotEval(e.kind)
+            if feasible:
+                if field not in env:
+                    raise CannotEval("field not stored")
+                return env[field]
+        raise CannotEval("no feasible path")
+
+    shapes = {s[3] for s in sites}
+    cases = [("a display of immediates", (0,), [0]), ("a display of immediates", (7,), [7]), ("a display of immediates", (0, 3), [0, 3])]
+    if "bare" in shapes:
+        cases += [("a bare number", 0, [0]), ("a bare number", 7, [7])]
+    bad, undecided = [], []
+    for what, sample, want in cases:
+        try:
+            got = fold(sample)
+        except CannotEval as ex:
+            undecided.append(f"{sample!r}: {ex}")
+            continue
+        try:
+            lst = list(got) if got is not None else []
+        except TypeError:
+            lst = None
+        if lst != want:
+            bad.append((what, sample, got))
+    where = next((s for s in sites if s[3] == "bare"), sites[0])
+    col.check(not bad, rule, f"{WA}::Instruction keeps its immediates", f"{len(sites)} constructions ({', '.join(sorted(shapes))}); the constructor stores every immediate it is given"
+              + (f"; not folded: {undecided}" if undecided else ""),
+              f"Instruction(op, {bad[0][1]!r}) ({bad[0][0]}, as `{' '.join(unparse(where[2]).split())[:70]}` in {where[0]} passes it) stores {bad[0][2]!r}: WriteTo iterates that, so the immediate "
+              f"{bad[0][1] if not isinstance(bad[0][1], tuple) else bad[0][1][0]} is not written after the opcode" if bad else None, where[0] if bad else WA, where[2] if bad else init)
 
 
 def check_vectors(model, col, rule):
@@ -341,6 +442,53 @@ def check_encoder_shape(model, col, R):
                       "otherwise the value decodes with the wrong sign or one byte short", WA, lp)
     zero = [n for n in ast.walk(pi) if isinstance(n, ast.If) and "v == 0" in unparse(n.test) and any(isinstance(s, ast.Return) for s in n.body)]
     col.check(bool(zero) or "while" in src, R, f"{WA}::PackInteger zero", "0 is written as a single 0x00 byte", None, WA, pi)
+    # the encoder is total on the 32-bit range: a `raise` (or assert) whose guard is decidable from (value, signed) alone
+    # must not be reached for a value of the range the format writes -- the boundaries of both ranges are the samples
+    rejected = []
+    n_raise = 0
+    sname = pi.args.args[1].arg if len(pi.args.args) > 1 else None
+    samples = [(x, False) for x in (0, 1, 63, 64, 127, 128, 2**31 - 1, 2**31, 2**32 - 1)] + [(x, True) for x in (-2**31, -2**31 + 1, -129, -128, -65, -64, -1, 0, 63, 64, 2**31 - 1)] \
+        + [(x, False) for x in (-1, -64, -65, -2**31)]
+    for evs, status in paths(pi.body):
+        if status != "raise" and not any(e.kind == "stmt" and isinstance(e.node, ast.Assert) for e in evs):
+            continue
+        n_raise += 1
+        for val, sg in samples:
+            env = {vname0: val}
+            if sname:
+                env[sname] = sg
+            reached = status == "raise"
+            for e in evs:
+                if e.kind == "stmt" and isinstance(e.node, ast.Assert):
+                    try:
+                        if not ev(e.node.test, env):
+                            reached = True
+                            break
+                    except CannotEval:
+                        reached = False
+                        break
+                elif e.kind == "stmt" and isinstance(e.node, ast.Assign) and len(e.node.targets) == 1 and isinstance(e.node.targets[0], ast.Name):
+                    try:
+                        env[e.node.targets[0].id] = ev(e.node.value, env)
+                    except CannotEval:
+                        env.pop(e.node.targets[0].id, None)
+                elif e.kind == "cond":
+                    try:
+                        if bool(ev(e.node, env)) != bool(e.val):
+                            reached = False
+                            break
+                    except CannotEval:
+                        reached = False
+                        break
+                elif e.kind not in ("stmt", "raise"):
+                    # a loop or anything else between entry and the raise: not decided by this rule
+                    reached = False
+                    break
+            if reached:
+                rejected.append((val, sg, evs[-1].node))
+    col.check(not rejected, R, f"{WA}::PackInteger is total on the 32-bit range", f"{n_raise} raising path(s); none is taken for a boundary value of the signed or unsigned 32-bit range",
+              f"PackInteger({rejected[0][0] if rejected else ''}, signed={rejected[0][1] if rejected else ''}) raises (`{' '.join(unparse(rejected[0][2]).split())[:60] if rejected else ''}`): "
+              "a value of the 32-bit range the format writes is rejected instead of encoded", WA, rejected[0][2] if rejected else pi)
     wi = model.func(WA, "WriteInteger")
     calls = [c for c in ast.walk(wi) if isinstance(c, ast.Call) and last_attr(c) == "PackInteger"]
     passes = bool(calls) and (len(calls[0].args) + len(calls[0].keywords)) == len(wi.args.args) - 1
